@@ -46,6 +46,13 @@ MUTATORS = {"append", "extend", "insert", "pop", "popitem", "clear", "update", "
 
 MEMO_DECOS = {"lru_cache", "cache", "cached_property"}
 
+# calls that change state of the PROCESS every thread sees (saved / changed / restored around a block or set for good)
+PROCESS_GLOBAL_CALLS = {"warnings.catch_warnings", "warnings.simplefilter", "warnings.filterwarnings", "warnings.resetwarnings",
+                        "os.chdir", "os.umask", "os.putenv", "os.unsetenv", "locale.setlocale", "sys.setrecursionlimit",
+                        "sys.setswitchinterval", "np.seterr", "numpy.seterr", "np.seterrcall", "pd.set_option", "pandas.set_option",
+                        "pd.option_context", "pandas.option_context", "np.random.seed", "numpy.random.seed", "random.seed",
+                        "np.set_printoptions", "gc.disable", "gc.enable", "signal.signal", "faulthandler.enable"}
+
 PATTERNS = ["check_then_act", "idem_store", "augmented", "rmw", "set_restore", "multi_store", "delete", "mutcall", "plain"]
 BASES = ["self", "global", "default", "classattr", "param", "fresh", "local"]
 LKINDS = ["module_global", "class_attr", "default_arg", "global_stmt", "memo_decorator", "func_attr", "closure_cell"]
@@ -377,6 +384,8 @@ class ModuleScan(ast.NodeVisitor):
             elif name in fi.params:
                 if name in fi.defaults and vkind(fi.defaults[name]) != "const":
                     r = ("default", "%s.%s.%s" % (self.module, fi.qual, name))
+                elif fresh_self:
+                    r = ("fresh", name)         # what a constructor is given is adopted by the object under construction
                 else:
                     r = ("param", name)
                 if name in local_assigned:      # a parameter that is also rebound: keep the more shared view
@@ -554,6 +563,11 @@ class ModuleScan(ast.NodeVisitor):
                                           "pattern": {"setdefault": "check_then_act", "add": "idem_store"}.get(f.attr, "mutcall"),
                                           "guard_line": None, "detail": f.attr,
                                           "key": (n.args[0].value if n.args and isinstance(n.args[0], ast.Constant) and isinstance(n.args[0].value, str) else None)})
+                    if cname in PROCESS_GLOBAL_CALLS:
+                        sites.append({"module": self.module, "file": self.module + ".py", "func": fi.qual, "line": n.lineno,
+                                      "end_line": getattr(st, "end_lineno", n.lineno), "base": "global", "base_name": "process:" + cname,
+                                      "target": cname, "pattern": "set_restore" if cname.endswith(("catch_warnings", "option_context")) else "mutcall",
+                                      "guard_line": None, "detail": cname})
                     if isinstance(f, ast.Name) and f.id in ("setattr", "delattr") and n.args:
                         b = base_of_expr(n.args[0])
                         key = unparse(n.args[1]) if len(n.args) > 1 else "?"
@@ -741,6 +755,10 @@ def to_gallina(inv):
     out.append(";\n".join(rows))
     out.append("  ].")
     out.append("")
+    out.append("Definition inv_memo_keys : list memo_key :=")
+    out.append("  [" + "; ".join("mkMemoKey %d%%N %s %s" % (c["line"], "true" if c["names_ok"] else "false", "true" if c["key_pure"] else "false")
+                             for c in inv.get("memo_keys", [])) + "].")
+    out.append("")
     return "\n".join(out) + "\n"
 
 
@@ -748,6 +766,7 @@ def run(repo, gen_dir):
     """-> {"status": "ok"|"translator_fallback", "inventory": {...}, "file": path of SharedInv.v}"""
     try:
         inv = scan_package(repo)
+        inv["memo_keys"] = memo_key_clauses(repo)
         text = to_gallina(inv)
         os.makedirs(gen_dir, exist_ok=True)
         path = os.path.join(gen_dir, "SharedInv.v")
@@ -840,3 +859,152 @@ def native_state(repo):
                     foreign.append({"module": mod, "name": m.group(2), "line": i})
         out += names
     return {"globals": out, "foreign_static_buffers": foreign}
+
+
+# ---------------------------------------------------------------------------------------------
+# "the stored value is a function of the key": a regenerated clause for memo stores into keyed containers
+# ---------------------------------------------------------------------------------------------
+
+KEY_IMPURE_CALLS = {"id", "repr", "str", "hash", "format"}
+
+
+def memo_key_clauses(repo):
+    """For every store `C[key] = value` (or C.setdefault(key, value)) into a container C that outlives the call (module global,
+    default argument, class attribute, attribute of self / of a parameter) under an absence test (check-then-act), decide from
+    the source whether the key DETERMINES the value:
+       deps(value) = the names that are free in the guarded block (used there, bound outside it)
+       deps(key)   = the names free in the key expression (a local key variable is expanded to its defining expression)
+       owner       = the object the container is an attribute of (a cache kept ON a handle is implicitly keyed by the handle)
+       names_ok    = deps(value) - deps(key) - owner - module-level names (functions, classes, imports, constants) == {}
+       key_pure    = the key expression calls none of id / repr / str / hash (identities and renderings do not identify a value)
+    -> [{"file","line","func","container","names_ok","key_pure","extra_deps":[...],"impure":[...]}]"""
+    pkg = os.path.join(repo, "fastparquet")
+    out = []
+    for f in sorted(os.listdir(pkg)):
+        if not f.endswith(".py"):
+            continue
+        tree = ast.parse(open(os.path.join(pkg, f)).read(), filename=f)
+        module_names = set()
+        for st in tree.body:
+            if isinstance(st, (ast.Import, ast.ImportFrom)):
+                module_names |= {(a.asname or a.name).split(".")[0] for a in st.names}
+            elif isinstance(st, (ast.FunctionDef, ast.ClassDef)):
+                module_names.add(st.name)
+            elif isinstance(st, (ast.Assign, ast.AnnAssign)):
+                for t in (st.targets if isinstance(st, ast.Assign) else [st.target]):
+                    if isinstance(t, ast.Name):
+                        module_names.add(t.id)
+        import builtins
+        module_names |= set(dir(builtins))
+        for fn in ast.walk(tree):
+            if not isinstance(fn, (ast.FunctionDef, ast.AsyncFunctionDef)):
+                continue
+            params = {a.arg for a in fn.args.args + fn.args.kwonlyargs + fn.args.posonlyargs}
+            assigns = {}
+            for n in ast.walk(fn):
+                if isinstance(n, ast.Assign) and len(n.targets) == 1 and isinstance(n.targets[0], ast.Name):
+                    assigns.setdefault(n.targets[0].id, n.value)
+
+            def free_names(nodes, bound=()):
+                used, bound_here = set(), set(bound)
+                for node in nodes:
+                    for n in ast.walk(node):
+                        if isinstance(n, ast.Name):
+                            (bound_here if isinstance(n.ctx, ast.Store) else used).add(n.id)
+                        elif isinstance(n, ast.arg):
+                            bound_here.add(n.arg)
+                return used - bound_here
+
+            def key_deps(kexpr, depth=0):
+                names = set()
+                impure = set()
+                for n in ast.walk(kexpr):
+                    if isinstance(n, ast.Call) and isinstance(n.func, ast.Name) and n.func.id in KEY_IMPURE_CALLS:
+                        impure.add(n.func.id)
+                    if isinstance(n, ast.Name) and isinstance(n.ctx, ast.Load):
+                        if n.id in assigns and n.id not in params and depth < 3:
+                            d2, i2 = key_deps(assigns[n.id], depth + 1)
+                            names |= d2 | {n.id}
+                            impure |= i2
+                        else:
+                            names.add(n.id)
+                return names, impure
+
+            def owner_of(cont):
+                r = root_and_chain(cont)
+                return {r} if r else set()
+
+            def container_kind(cont, depth=0):
+                r = root_and_chain(cont)
+                if r is None:
+                    return None
+                if r in ("self",) or r in params:
+                    # an ATTRIBUTE of self / of a parameter (x.cache[key]); a bare parameter container is the caller's
+                    n_, has_attr = cont, False
+                    while isinstance(n_, (ast.Subscript, ast.Attribute, ast.Call)):
+                        if isinstance(n_, ast.Attribute):
+                            has_attr = True
+                        n_ = n_.value if not isinstance(n_, ast.Call) else (n_.func if isinstance(n_.func, ast.Attribute) else ast.Name(id="?", ctx=ast.Load()))
+                    return "object" if has_attr else None
+                if r in module_names and r not in dir(builtins):
+                    return "global"
+                if r in assigns:            # local alias of something longer-lived (d = pf.__dict__.setdefault(...))
+                    v = assigns[r]
+                    if depth < 3 and not isinstance(v, (ast.Dict, ast.List)) and container_kind(v, depth + 1) is not None:
+                        return "alias"
+                return None
+
+            def visit(body, guards):
+                for st in body:
+                    if isinstance(st, (ast.FunctionDef, ast.ClassDef)):
+                        continue
+                    if isinstance(st, ast.If):
+                        visit(st.body, guards + [st])
+                        visit(st.orelse, guards + [st])
+                        continue
+                    if isinstance(st, ast.Try):
+                        visit(st.body, guards)
+                        for h in st.handlers:
+                            visit(h.body, guards + [st])
+                        visit(st.orelse, guards)
+                        visit(st.finalbody, guards)
+                        continue
+                    if isinstance(st, (ast.For, ast.While, ast.With)):
+                        visit(st.body, guards)
+                        continue
+                    targets = []
+                    if isinstance(st, ast.Assign):
+                        for t in st.targets:
+                            for e in ast.walk(t):
+                                if isinstance(e, ast.Subscript) and isinstance(e.ctx, ast.Store) and not (
+                                        isinstance(e.slice, ast.Constant)) and not isinstance(e.slice, ast.Slice):
+                                    targets.append((e.value, e.slice, st.value))
+                    for n in ast.walk(st):
+                        if isinstance(n, ast.Call) and isinstance(n.func, ast.Attribute) and n.func.attr == "setdefault" and len(n.args) == 2 \
+                                and not isinstance(n.args[0], ast.Constant):
+                            targets.append((n.func.value, n.args[0], n.args[1]))
+                    for cont, kexpr, vexpr in targets:
+                        kind = container_kind(cont)
+                        if kind is None or not guards:
+                            continue
+                        g = guards[-1]
+                        block = g.body if isinstance(g, ast.If) else [x for h in g.handlers for x in h.body]
+                        # the guarded block computes the value: its free names are what the value depends on
+                        vdeps = set()
+                        for nm_ in free_names(block):
+                            # a local computed before the block counts through what IT was computed from
+                            d_, _ = key_deps(ast.Name(id=nm_, ctx=ast.Load()))
+                            vdeps |= (d_ - {nm_}) if (nm_ in assigns and nm_ not in params) else {nm_}
+                        kd, impure = key_deps(kexpr)
+                        own = owner_of(cont)
+                        if kind == "alias":
+                            r = root_and_chain(cont)
+                            own |= {r} | owner_of(assigns[r])
+                        cname = unparse(cont)
+                        extra = sorted(n_ for n_ in vdeps - kd - own - module_names - {root_and_chain(cont) or ""}
+                                       if n_ not in ("self",) or "self" not in own)
+                        out.append({"file": f, "line": st.lineno, "func": fn.name, "container": cname, "container_kind": kind,
+                                    "key": unparse(kexpr)[:80], "names_ok": not extra, "key_pure": not impure,
+                                    "extra_deps": extra[:8], "impure": sorted(impure)})
+            visit(fn.body, [])
+    return out
